@@ -567,7 +567,13 @@ func buildSetEvents(id string, task *Task, updates map[string]string, agentID st
 		claimValue = cv
 		if !isEpic(task) {
 			if claimValue == "" {
-				// Clear claim
+				// Clear claim. Without an explicit state the task keeps its
+				// state, which must be one that may be unclaimed.
+				if _, hasState := remainingUpdates["state"]; !hasState {
+					if err := validateClaimInvariant(task.State, ""); err != nil {
+						return nil, nil, err
+					}
+				}
 				event, err := newEvent("unclaim", now, UnclaimEvent{
 					ID: id,
 					TS: formatTime(now),
